@@ -164,3 +164,21 @@ Example c01_nonvacuous_nats :
   | None => False
   end.
 Proof. vm_compute. repeat split. Qed.
+
+(** observation (outside the property's quantifier: two CONCURRENT requests sharing one FContext): the
+    adapter transport ignores Register's error, so the second request's deferred Unregister deletes
+    the first one's registration and the first one's response is dropped as "unregistered"; on NATS
+    the second request is refused and the first one completes *)
+Example c01_shared_fcontext_adapter_vs_nats :
+  let fr := {| f_op := 11; f_tag := 1 |} in
+  match run KAdapter false (init (fun _ => 11) (fun _ => true) 2)
+            [ERegister 0; ERegister 1; ERelease 0; ERelease 1; ETake 1 TTimeout; EUnregister 1; EArrive fr] with
+  | Some s => rd s = RIdle /\ c_chan (callers s 0) = [] /\ c_phase (callers s 0) = CSelect /\ reg s = []
+  | None => False
+  end /\
+  match run KNats false (init (fun _ => 11) (fun _ => true) 2)
+            [ERegister 0; ERegister 1; ERelease 0; EArrive fr; EDeliver; ETake 0 TResult; EUnregister 0] with
+  | Some s => c_phase (callers s 0) = CDone (OOk fr) /\ c_phase (callers s 1) = CDone ORegErr /\ reg s = []
+  | None => False
+  end.
+Proof. vm_compute. repeat split. Qed.
